@@ -41,16 +41,18 @@ type OrefaFS struct {
 
 // OrefaFile represents an open file descriptor.
 type OrefaFile struct {
-	vfs        *OrefaFS      // vfs is the memory file system of the file.
-	nd         *node         // nd is node of the file.
-	name       string        // name is the name of the file.
-	absPath    string        // absPath is the absolute path of the file when it was opened, used by Chdir.
-	dirEntries []fs.DirEntry // dirEntries stores the file information returned by ReadDir function.
-	dirNames   []string      // dirNames stores the names of the file returned by Readdirnames function.
-	at         int64         // at is current position in the file used by Read and Write functions.
-	dirIndex   int           // dirIndex is the position of the current index for dirEntries ou dirNames slices.
-	mu         verifRWMutex  // mu is the RWMutex used to access content of OrefaFile.
-	openMode   avfs.OpenMode // OpenMode defines constants used by OpenFile and CheckPermission functions.
+	vfs              *OrefaFS      // vfs is the memory file system of the file.
+	nd               *node         // nd is node of the file.
+	name             string        // name is the name of the file.
+	absPath          string        // absPath is the absolute path of the file when it was opened, used by Chdir.
+	dirEntries       []fs.DirEntry // dirEntries stores the file information returned by ReadDir function.
+	dirNames         []string      // dirNames stores the names of the file returned by Readdirnames function.
+	at               int64         // at is current position in the file used by Read and Write functions.
+	dirIndex         int           // dirIndex is the position of the current index for dirEntries ou dirNames slices.
+	dirEntriesLoaded bool          // dirEntriesLoaded is true when dirEntries has been read from the directory.
+	dirNamesLoaded   bool          // dirNamesLoaded is true when dirNames has been read from the directory.
+	mu               verifRWMutex  // mu is the RWMutex used to access content of OrefaFile.
+	openMode         avfs.OpenMode // OpenMode defines constants used by OpenFile and CheckPermission functions.
 }
 
 // Options defines the initialization options of OrefaFS.
